@@ -335,7 +335,7 @@ func c14R4(c *Ctx) {
 	// float readers: Read methods whose receiver's underlying type is a float and that call strconv.ParseFloat
 	n := 0
 	for _, fn := range p.FuncsIn(modPath) {
-		if fn.Signature.Recv() == nil || fn.Name() != "Read" || fn.Pkg == nil || fn.Pkg.Pkg.Path() != modPath {
+		if fn.Signature.Recv() == nil || fnName(fn) != "Read" || fn.Pkg == nil || fn.Pkg.Pkg.Path() != modPath {
 			continue
 		}
 		var parse ssa.CallInstruction
@@ -460,7 +460,7 @@ func c14R5(c *Ctx) {
 	p := c.P
 	n := 0
 	for _, fn := range p.FuncsIn(modPath) {
-		if fn.Signature.Recv() == nil || fn.Name() != "Write" || fn.Pkg == nil || fn.Pkg.Pkg.Path() != modPath {
+		if fn.Signature.Recv() == nil || fnName(fn) != "Write" || fn.Pkg == nil || fn.Pkg.Pkg.Path() != modPath {
 			continue
 		}
 		for _, cl := range Calls(fn) {
